@@ -127,6 +127,20 @@ P["C15"] = dict(
     design_ref="3 SYM, 4 C15",
 )
 
+P["C16"] = dict(
+    text="Static shape analysis of conditional assembly and command-line definitions: in resolve_ifs the condition evaluated is the visited node's own (constants-only evaluation), the node is expanded only on the `is a boolean` edge, the node removed is the one decided, the true arm is spliced at exactly that position on the `true` edge and the false arm (if any) on the other, every expansion is counted and the count returned; check_leftover_ifs ends in Err on every path through a remaining #if, with a message on both outcomes of the strict re-evaluation; the pre-pass loop has `no further constant and no #if expanded` as its only non-error exit (the iteration budget plays no part); only the expansion reads the arms of an #if (who-reads audit, so an unselected arm can have no effect or visibility); in resolve_constant_simple the command-line definition matching the constant's declared full name is looked up before the constant's own expression is evaluated, replaces the value and freezes the symbol, a frozen symbol is never re-evaluated by the resolver, a definition that names no declared symbol fails the assembly, and the phase order puts the leftover check before definitions/matching and the unused-define check before output (PIPE).",
+    note="Decides the selection, visibility and override structure. Not decided: that a condition's value is what the expression language says (C05) and termination bounds of the pre-pass. Known finding: an #include inside an #if arm is silently ignored (also listed under C14).",
+    technique="static analysis: provenance-expression checks of splice/remove operands, edge-dominance by the condition's boolean, loop-exit classification, who-reads audit of struct fields, dominance of evaluation by the override lookup",
+    design_ref="3 COND, 4 C16",
+)
+
+P["C17"] = dict(
+    text="Static shape analysis of asm-block and user-function evaluation: eval_asm starts with the nesting-depth check of its own context and nothing runs on its failure edge; only instructions and top-level labels are accepted; the block is laid out from the enclosing instruction's position, the block-local position advances by the size of each resolved encoding and every instruction/label is evaluated in a context copy carrying that position; the block's passes forbid guessing only when the enclosing pass does; the text matched is the substituted text, evaluated in the hygienised copy of the caller's context extended by the block's labels; encodings are concatenated in order at full width; every rule parameter (typed or not, nested or not) is bound both by value and by argument text on every path; `{name}` prefers the argument text over the by-value local and both renamings use the same function one level deeper; a user function call checks the depth, checks the argument count before indexing, binds parameter i to argument i in a fresh deeper context and evaluates the body there (every evaluation of the body); asm blocks are never statically known (SK); every recursion cycle through the evaluator passes a depth guard (LIM1); the block's result is delivered only after a confirming strict pass (FIX1).",
+    note="Decides the structural conditions of `expansion equals inlining`; equality of bits for every argument text is differential and not claimed. One genuine defect repaired (strictness of the block's confirming pass). Known findings: by-value locals handed through two levels of textual substitution are unbound; nesting depth of asm blocks is not bounded by the parse-depth counter.",
+    technique="static analysis: dominance / success-edge checks, provenance expressions of context and position operands, def-use shape of the block-local position, path search for unconditional pairing of value and text bindings, call-graph SCC analysis with guard nodes",
+    design_ref="3 ASM/FN, 4 C17",
+)
+
 NA_PENDING = "check not built yet (build in progress, see DESIGN.md section 9)"
 
 
